@@ -239,7 +239,10 @@ func (m *c07Mon) onCall(from *c13Node, method, target string, req any, start tim
 	}
 	// success is only an acceptance if the "already stored" shortcut cannot have been taken, and only a defect if
 	// the receiver had stored the last pre-transition round (=> switched) half a period or more before the call
-	if m.last[recv.idx] >= pk.Round {
+	// (a round counts as possibly stored as soon as its Put has STARTED at the receiver: the tap's own
+	// book-keeping lags the commit by the time it takes to verify the beacon)
+	if m.last[recv.idx] >= pk.Round || recv.putStarted.Load() >= pk.Round+1 {
+		m.run.Count("leaver_partials_ok_explained_by_already_stored", 1)
 		return
 	}
 	sw, ok := m.putAt[recv.idx][m.tr-1]
